@@ -131,7 +131,7 @@ pub fn world_from_scenario_file(bytes: &[u8]) -> Result<World, String> {
     Ok(cli_scenario(f.idx, &mut t).world)
 }
 
-fn clisim_path() -> std::path::PathBuf { std::path::Path::new(crate::runner::VERIF_DIR).join("clisim/target/release/clisim") }
+fn clisim_path() -> std::path::PathBuf { crate::runner::verif_dir().join("clisim/target/release/clisim") }
 
 fn bson_to_json(b: &bson::Bson) -> Value {
     use bson::Bson;
@@ -184,7 +184,7 @@ impl Prop for C19 {
         let reference = run_call(scn.world, &call);
         out.absorb(&reference.world);
         // ---- the real CLI in its own process
-        let dir = std::path::Path::new(crate::runner::VERIF_DIR).join("work").join("cli");
+        let dir = crate::runner::verif_dir().join("work").join("cli");
         let _ = std::fs::create_dir_all(&dir);
         let file = dir.join(format!("scn-{}-{}.json", std::process::id(), idx));
         std::fs::write(&file, serde_json::to_vec(&ScenarioFile { idx, tape: tape_snapshot }).unwrap()).expect("scenario file");
